@@ -25,39 +25,15 @@ use crate::rustdoc::CrateCollection;
 use super::copy::CopyChecker;
 use super::diagnostic_helpers::suggest_wrapping_in_a_smart_pointer;
 
-/// Scan the call graph for a specific kind of borrow-checking violation:
+/// Assign to each node the set of nodes that its output captures a reference from.
 ///
-/// - node `A` consumes one its dependencies, `B`, by value;
-/// - `B` is either borrowed (e.g. via a capture `D<'_>`) or will have to be borrowed by a descendant of `A`.
-///
-/// If this happens, we try to clone `B` (if its cloning strategy allows for it), otherwise we emit
-/// an error.
-///
-/// This is the "best" kind of borrow checking violation, because we can return a very clear
-/// diagnostic message to the user.
-/// The more subtle kinds of violations are handled by [`super::complex::complex_borrow_check`].
-///
-/// This also checks for the case where a mutable borrow is attempted while an immutable borrow is
-/// still active.
-pub(super) fn move_while_borrowed(
-    call_graph: CallGraph,
-    copy_checker: &CopyChecker,
-    component_db: &mut ComponentDb,
-    computation_db: &mut ComputationDb,
-    krate_collection: &CrateCollection,
-    diagnostics: &crate::diagnostic::DiagnosticSink,
-) -> CallGraph {
-    let CallGraph {
-        mut call_graph,
-        root_node_index,
-        root_scope_id,
-        root_component_id,
-    } = call_graph;
-
-    // We first do a forward pass to assign to each node the set of nodes that it captures
-    // a reference from.
-    // E.g. in `fn f(s: &str) -> Cow<'_, str>` the output type holds onto a reference to the
-    // input type, so the input type is "borrowed" as long as the output type is in scope.
+/// E.g. in `fn f(s: &str) -> Cow<'_, str>` the output type holds onto a reference to the
+/// input type, so the input type is "borrowed" as long as the output type is in scope.
+pub(super) fn captured_nodes(
+    call_graph: &RawCallGraph,
+    component_db: &ComponentDb,
+    computation_db: &ComputationDb,
+) -> HashMap<NodeIndex, IndexSet<NodeIndex>> {
     let mut nodes_to_visit = VecDeque::from_iter(call_graph.externals(Direction::Incoming));
     let mut visited_nodes = IndexSet::new();
     let mut node2captured_nodes: HashMap<NodeIndex, IndexSet<NodeIndex>> = HashMap::new();
@@ -159,6 +135,43 @@ pub(super) fn move_while_borrowed(
             }
         }
     }
+
+    node2captured_nodes
+}
+
+/// Scan the call graph for a specific kind of borrow-checking violation:
+///
+/// - node `A` consumes one its dependencies, `B`, by value;
+/// - `B` is either borrowed (e.g. via a capture `D<'_>`) or will have to be borrowed by a descendant of `A`.
+///
+/// If this happens, we try to clone `B` (if its cloning strategy allows for it), otherwise we emit
+/// an error.
+///
+/// This is the "best" kind of borrow checking violation, because we can return a very clear
+/// diagnostic message to the user.
+/// The more subtle kinds of violations are handled by [`super::complex::complex_borrow_check`].
+///
+/// This also checks for the case where a mutable borrow is attempted while an immutable borrow is
+/// still active.
+pub(super) fn move_while_borrowed(
+    call_graph: CallGraph,
+    copy_checker: &CopyChecker,
+    component_db: &mut ComponentDb,
+    computation_db: &mut ComputationDb,
+    krate_collection: &CrateCollection,
+    diagnostics: &crate::diagnostic::DiagnosticSink,
+) -> CallGraph {
+    let CallGraph {
+        mut call_graph,
+        root_node_index,
+        root_scope_id,
+        root_component_id,
+    } = call_graph;
+
+    // We first do a forward pass to assign to each node the set of nodes that it captures
+    // a reference from.
+    let node2captured_nodes = captured_nodes(&call_graph, component_db, computation_db);
+    let mut visited_nodes = IndexSet::new();
 
     // We start from sinks (i.e. nodes that do not have outgoing edges) and work our way up,
     // traversing edges in the reverse direction (i.e. incoming edges).
